@@ -717,7 +717,8 @@ class IPAddr6 (_AddrBase):
       wild = 128-b
       assert wild >= 0 and wild <= 128
       return check(IPAddr6(addr[0]), wild)
-    assert wild >= 0 and wild <= 128
+    if wild < 0 or wild > 128:
+      raise RuntimeError("Bad prefix length (%s)" % ('/'.join(addr),))
     return check(IPAddr6(addr[0]), wild)
 
   def in_network (self, network, netmask = None):
@@ -912,7 +913,8 @@ def parse_cidr (addr, infer=True, allow_host=False):
     wild = 32-b
     assert wild >= 0 and wild <= 32
     return check(IPAddr(addr[0]), wild)
-  assert wild >= 0 and wild <= 32
+  if wild < 0 or wild > 32:
+    raise RuntimeError("Bad prefix length (%s)" % ('/'.join(addr),))
   return check(IPAddr(addr[0]), wild)
 
 
